@@ -437,6 +437,7 @@ int SimulateZ80::dump_ram(int start, int end)
   int n, count;
 
   count = 0;
+  if (start < 0) { start = 0; }
   if (end >= (int)sizeof(io_mem))
   {
     end = sizeof(io_mem) - 1;   // limit IO space
